@@ -77,6 +77,14 @@ impl Fq2 {
         }
         let b = self.c1;
         let a = self.c0;
+        if b.is_zero() {
+            // a is in Fq: either a is a square in Fq, or (2 being a non-residue) -a/2 is,
+            // and then (sqrt(-a/2) * u)^2 = -2 * (-a/2) = a
+            return match a.sqrt() {
+                Some(y) => Some(Self::new(y, Fq::zero())),
+                None => (-a).div2().sqrt().map(|z| Self::new(Fq::zero(), z)),
+            };
+        }
         let bb = b.squared();
         let aa = a.squared();
         let u = aa + bb.double();
